@@ -153,6 +153,51 @@ class _Noise(ast.NodeTransformer):
         return n
 
 
+def unique_signatures(root: Path) -> dict[str, list[str]]:
+    """function/method name -> positional parameter names (without self/cls), for names
+    defined exactly once under src/AEIC with no *args and no positional-only params"""
+    seen: dict[str, list] = {}
+    for p in sorted((root / 'src' / 'AEIC').rglob('*.py')):
+        for n in ast.walk(ast.parse(p.read_text())):
+            if isinstance(n, (ast.FunctionDef, ast.AsyncFunctionDef)):
+                a = n.args
+                if a.vararg or a.posonlyargs:
+                    seen.setdefault(n.name, []).append(None)
+                    continue
+                ps = [x.arg for x in a.args]
+                if ps[:1] in (['self'], ['cls']):
+                    ps = ps[1:]
+                seen.setdefault(n.name, []).append(ps)
+    return {k: v[0] for k, v in seen.items() if len(v) == 1 and v[0] is not None and not k.startswith('__')}
+
+
+class _KwArgs(ast.NodeTransformer):
+    """f(a, b) -> f(x=a, y=b) for calls of uniquely named repository functions"""
+
+    def __init__(self, sigs, local_defs=()):
+        self.sigs = sigs
+        self.local_defs = set(local_defs)
+
+    def visit_Call(self, n):
+        self.generic_visit(n)
+        name = None
+        if isinstance(n.func, ast.Attribute) and isinstance(n.func.value, ast.Name) and n.func.value.id in ('self', 'cls'):
+            name = n.func.attr
+        elif isinstance(n.func, ast.Name) and n.func.id in self.local_defs:
+            name = n.func.id
+        ps = self.sigs.get(name)
+        if ps and n.args and not any(isinstance(a, ast.Starred) for a in n.args) and len(n.args) <= len(ps) \
+                and not any(k.arg is None for k in n.keywords):
+            kws = [ast.keyword(arg=ps[i], value=a) for i, a in enumerate(n.args)]
+            if not ({k.arg for k in kws} & {k.arg for k in n.keywords}):
+                n.keywords = kws + n.keywords
+                n.args = []
+        return n
+
+
+_SIGS = None
+
+
 def transform(path: Path, kind: str):
     src = path.read_text()
     tree = ast.parse(src)
@@ -162,6 +207,14 @@ def transform(path: Path, kind: str):
         tree = _Aug().visit(tree)
     elif kind == 'flip-compare':
         tree = _FlipCmp().visit(tree)
+    elif kind == 'kwargs':
+        global _SIGS
+        if _SIGS is None:
+            root = path
+            while root.name != 'src':
+                root = root.parent
+            _SIGS = unique_signatures(root.parent)
+        tree = _KwArgs(_SIGS, [x.name for x in tree.body if isinstance(x, ast.FunctionDef)]).visit(tree)
     elif kind == 'noise':
         tree = _Noise().visit(tree)
     elif kind == 'invert-if':
